@@ -34,6 +34,8 @@ PLACEMENTS = [
     ("identical", None), # 11 equal parameters, separate objects
     ("same", None),      # 12 the same object passed twice
     ("sep", 2e-2),       # 13
+    ("sepL", 1.5),       # 14 gap = 1.5 * 1e-3 * Lhint  (just outside the grazing band of C02)
+    ("sepL", 30.0),      # 15
 ]
 N_PL = len(PLACEMENTS)
 
@@ -73,8 +75,13 @@ def build(desc, want_impl=True):
         cB = cA
     else:
         _, rB0 = sc.build(tb, desc["sb"], desc["ob"], np.zeros(3), mB, want_impl=False)
-        if kind == "sep":
-            if par == "rel":
+        if kind in ("sep", "sepL"):
+            if kind == "sepL":
+                Lh = max(1.0, rA.size(), rB0.size(), float(np.linalg.norm(rA.centre())) + rA.bound_radius() + 2 * rB0.bound_radius() + 1.0)
+                g = min(250.0, par * 1e-3 * Lh)
+                kind = "sep"
+                truth["kind"] = "sep"
+            elif par == "rel":
                 g = min(250.0, 2.5 * (rA.size() + rB0.size()))
             else:
                 g = float(par)
@@ -105,7 +112,14 @@ def build(desc, want_impl=True):
 
 
 def pair_class(desc):
+    if PLACEMENTS[desc["pl"]][0] in ("identical", "same"):
+        return "%s%s-%s%s" % (desc["ta"], "+m" if desc["ma"] else "", desc["ta"], "+m" if desc["ma"] else "")
     return "%s%s-%s%s" % (desc["ta"], "+m" if desc["ma"] else "", desc["tb"], "+m" if desc["mb"] else "")
+
+
+def dsig(desc):
+    """Compact descriptor string used for descriptor-level known-finding signatures."""
+    return ",".join("%s=%s" % (k, desc[k]) for k in ("ta", "tb") + tuple(COORDS))
 
 
 def in_domain(desc, s):
@@ -121,4 +135,4 @@ def nontrivial_key(desc):
 
 def is_degenerate(desc):
     kind, par = PLACEMENTS[desc["pl"]]
-    return (desc["u"] not in (0, 27, 28, 29, 30)) or kind != "sep" or par in (0.0, 1e-6)
+    return (desc["u"] not in (0, 27, 28, 29, 30)) or kind not in ("sep", "sepL") or par in (0.0, 1e-6)
